@@ -130,11 +130,16 @@ impl Selector {
                     }
                 }
                 SelectorComponent::CombDescendant => {
-                    if let Some(parent) = node.get_parent() {
-                        Self::do_matches(&comps[1..], &parent) || Self::do_matches(comps, &parent)
-                    } else {
-                        false
+                    // Try each ancestor in turn.  This is a loop rather than recursion
+                    // so that deeply nested documents can't overflow the stack.
+                    let mut ancestor = node.get_parent();
+                    while let Some(parent) = ancestor {
+                        if Self::do_matches(&comps[1..], &parent) {
+                            return true;
+                        }
+                        ancestor = parent.get_parent();
                     }
+                    false
                 }
                 SelectorComponent::NthChild { a, b, sel } => {
                     let parent = if let Some(parent) = node.get_parent() {
